@@ -427,6 +427,45 @@ def run(prog, rep):
                       'unset_property must translate the sliver property name through the map and call '
                       'unset_node_property')
 
+    # R8 property names used by the element classes exist on the sliver class of that element
+    rep.rule('R8', 'every property name literal passed to get_property / set_property / set_properties in the user layer '
+                   'names a getter / setter of the element\'s sliver class', floor=50)
+    base_sl = prog.cls('fim.slivers.base_sliver:BaseSliver')
+    user_classes = dict(ELEMENTS)
+    user_classes['fim.user.model_element:ModelElement'] = None
+    user_classes['fim.user.network_service:PortMirrorService'] = 'service'
+    user_classes['fim.user.composite_node:CompositeNode'] = 'node'
+    for espec, kind in user_classes.items():
+        ecls = prog.cls(espec)
+        scls = prog.cls(KINDS[kind][0]) if kind else base_sl
+        names = scls.all_method_names()
+        fns = list(ecls.methods.values())
+        for pr in ecls.properties.values():
+            fns += list(pr.values())
+        for fn in fns:
+            for c in walk_no_nested(fn):
+                if not isinstance(c, ast.Call) or not isinstance(c.func, ast.Attribute):
+                    continue
+                recv = ast.unparse(c.func.value)
+                if recv != 'self':
+                    continue
+                lits = []
+                if c.func.attr in ('get_property', 'set_property'):
+                    a0 = c.args[0] if c.args else (kwarg(c, 'pname') or kwarg(c, 'prop_name'))
+                    if isinstance(a0, ast.Constant) and isinstance(a0.value, str):
+                        lits.append((a0.value, 'get_' if c.func.attr == 'get_property' else 'set_'))
+                elif c.func.attr == 'set_properties':
+                    for k in c.keywords:
+                        if k.arg:
+                            lits.append((k.arg, 'set_'))
+                for lit, pref in lits:
+                    fqn = f'{ecls.name}.{fn.name}'
+                    rep.instance('R8', f'{fqn}: {c.func.attr}({lit!r}) -> {scls.name}.{pref}{lit}')
+                    if pref + lit not in names:
+                        rep.violation('R8', loc(ecls.module, c), fqn, f'{c.func.attr}({lit!r})',
+                                      f'{fqn} addresses sliver property {lit!r} but {scls.name} has no {pref}{lit}: the access '
+                                      f'raises AttributeError instead of storing / returning the value')
+
     # R6 deep dictionary
     s2d = apg.methods.get('sliver_to_dict')
     if s2d is None:
@@ -513,6 +552,8 @@ MUTANTS = [
      'replace': 'prop_dict = self.topo.graph_model.link_sliver_to_graph_properties_dict(if_sliver)'},
     {'name': 'map-key-misspelled', 'file': APGF, 'rule': 'R4',
      'find': '        "mirror_vlan": ABCPropertyGraphConstants.PROP_MIRROR_VLAN,', 'replace': '        "mirror_vlan_": ABCPropertyGraphConstants.PROP_MIRROR_VLAN,'},
+    {'name': 'element-property-name-typo', 'file': 'fim/user/model_element.py', 'rule': 'R8',
+     'find': "            self.set_property('boot_script', value)", 'replace': "            self.set_property('bootscript', value)"},
     {'name': 'deep-key-renamed-on-writer', 'file': APGF, 'rule': 'R6', 'count': 2,
      'find': "                d['network_services'] = nss", 'replace': "                d['services'] = nss"},
 ]
